@@ -11,6 +11,9 @@
     `scatterPositional_leading_block` (general: on a leading block the two agree, which is why small tests pass).
   * clause 7 (unique filter), positive: `C14_unique_filter` / `C14_expr_uniq`. Regression S6-C14, per-screen cache of the first-occurrence mask:
     `S6_C14_cached_unique_counterexample` (the first occurrence of a condition lies outside the view: the view loses the condition).
+  * clause 5 ("the observed/unobserved views split the screen by its mask"), positive: `C14_split_by_mask`, row by row `C14_split_rowwise` (every screen, no
+    plate-uniformity hypothesis). Regression S8-C14, `subset_unobserved` selecting whole plates: `S8_C14_platewise_unobserved_counterexample` (a partly observed
+    plate, reachable by `set_observed` / `Plate.merge`), `unobservedByPlates_of_uniform` (general: identical on plate-uniform screens, why tests pass).
   * clause 6 (materialised rows incl. plate names), positive: `C14_to_screen_rows`, `C14_to_screen_ignores_pmap`. Regression S4-C14, plate names rebuilt
     from the stored plate table: `S4_C14_stale_plate_table_counterexample` (rows after an in-place merge: per-row names vs stale table),
     `pnamesViaPmap_of_consistent` (general: with a table that is consistent with the rows the rebuilt names ARE the rows' names).
@@ -144,5 +147,62 @@ theorem pnamesViaPmap_of_consistent (s : Screen) (hlen : s.pids.length = s.pname
             simp only [List.getElem_cons_zero] at h0
             rw [h0]
   exact key s.pids s.pnames hlen hcons sel
+
+/-! ### S8-C14: the unobserved view on a partly observed plate -/
+
+/-- **General (clause 5), for EVERY screen — also one on which `set_observed` / `Plate.merge` left a plate partly observed.** The observed view selects
+    exactly the rows where the mask holds, the unobserved view exactly the others; each row of the screen is in exactly one of them; a side is absent
+    exactly when it would be empty. (`C14_split_by_mask`, restated row by row; no plate-uniformity hypothesis.) -/
+theorem C14_split_rowwise (s : Screen) (pid : Nat) (i : Nat) (hi : i < s.mask.length) :
+    (∀ v, s.subsetObserved pid = some v → v.sel[i]? = some s.mask[i]) ∧
+    (∀ v, s.subsetUnobserved pid = some v → v.sel[i]? = some (!s.mask[i])) ∧
+    (s.subsetObserved pid = none → s.mask[i] = false) ∧ (s.subsetUnobserved pid = none → s.mask[i] = true) := by
+  obtain ⟨h1, h2, h3, h4, _⟩ := C14_split_by_mask s pid
+  refine ⟨fun v hv => ?_, fun v hv => ?_, fun hn => ?_, fun hn => ?_⟩
+  · rw [(h3 v hv).2, List.getElem?_eq_getElem hi]
+  · rw [(h4 v hv).2]; simp [List.getElem?_eq_getElem hi]
+  · have := h1.mp hn
+    cases hb : s.mask[i]
+    · rfl
+    · exact absurd (List.count_pos_iff.mpr (hb ▸ List.getElem_mem hi)) (by omega)
+  · have := h2.mp hn
+    cases hb : s.mask[i]
+    · exact absurd (List.count_pos_iff.mpr (hb ▸ List.getElem_mem hi)) (by omega)
+    · rfl
+
+/-- `parentA` after `set_observed` on row 0 only: plate 0 (rows 0, 1) is partly observed -/
+def partlyObserved : Screen := { parentA with mask := [true, false, false] }
+
+/-- **Regression S8-C14 (witness).** Plate 0 holds rows 0 and 1, row 0 observed, row 1 not (after `set_observed` on part of the plate): the plate-wise
+    selection drops row 1 from the unobserved view although its mask is false — the row is in NEITHER view; the faithful split has it. -/
+theorem S8_C14_platewise_unobserved_counterexample :
+    unobservedByPlates [0, 0, 1] [true, false, false] = [false, false, true] ∧
+    ([true, false, false] : List Bool).map (!·) = [false, true, true] ∧
+    (subsetUnobservedByPlates partlyObserved 0).map (·.sel) = some [false, false, true] ∧
+    (partlyObserved.subsetUnobserved 0).map (·.sel) = some [false, true, true] ∧
+    (partlyObserved.subsetObserved 0).map (·.sel) = some [true, false, false] := by
+  decide
+
+/-- **General: why the tests pass.** When every plate is observed or unobserved as a whole (the invariant `Screen(...)` enforces), the plate-wise
+    selection IS the row-wise one. -/
+theorem unobservedByPlates_of_uniform (pids : List Int) (mask : List Bool) (hl : pids.length = mask.length)
+    (hu : ∀ (i j : Nat) (hi : i < pids.length) (hj : j < pids.length), pids[i] = pids[j] → mask[i]'(hl ▸ hi) = mask[j]'(hl ▸ hj)) :
+    unobservedByPlates pids mask = mask.map (!·) := by
+  apply List.ext_getElem
+  · simp [unobservedByPlates, hl]
+  · intro i h1 h2
+    have hi : i < pids.length := by simpa [unobservedByPlates] using h1
+    simp only [unobservedByPlates, List.getElem_map]
+    congr 1
+    rw [Bool.eq_iff_iff]
+    simp only [List.contains_eq_mem, decide_eq_true_eq]
+    rw [mem_maskFilter_iff pids mask hl]
+    constructor
+    · rintro ⟨j, hj, hp⟩
+      obtain ⟨hjm, hjt⟩ := List.getElem?_eq_some_iff.mp hj
+      obtain ⟨hjp, hpe⟩ := List.getElem?_eq_some_iff.mp hp
+      rw [hu i j hi hjp hpe.symm]; exact hjt
+    · intro hm
+      exact ⟨i, by rw [List.getElem?_eq_getElem (hl ▸ hi)]; exact congrArg some hm, List.getElem?_eq_getElem hi⟩
 
 end Batchie.Props.C14Regress
